@@ -986,13 +986,23 @@ pub mod implementations {
             .parse::<isize>()
             .context("jmp_not_nil needs lines_to_jump: isize")?;
 
-        if let Primitive::Optional(None) = primitive
+        let present = match primitive
             .move_out_of_heap_primitive_borrow()
             .context("could not move out of heap primitive")?
             .as_ref()
         {
-            ctx.pop();
-            return Ok(());
+            Primitive::Optional(None) => {
+                ctx.pop();
+                return Ok(());
+            }
+            // `(x) or y` yields the present *value*: a result wrapped by a built-in
+            // (`Optional(Some(..))`) must not reach arithmetic in its wrapper.
+            Primitive::Optional(Some(inner)) => Some(inner.as_ref().clone()),
+            _ => None,
+        };
+
+        if let Some(inner) = present {
+            ctx.set_last_op_item(inner);
         }
 
         ctx.signal(InstructionExitState::Goto(lines_to_jump));
